@@ -20,4 +20,5 @@ Inductive tok :=
 | TSub (children : list tok)
 | TTrack (arg : Z) | TChannel (arg : Z) | TVoice (args : list Z)
 | TKeyFlag (flags : list Z) | TKeyShift (arg : Z) | TTrackKey (arg : Z)
-| TTrackSync | TPlayFromHere | TComment.
+| TTrackSync | TPlayFromHere | TComment
+| TTime (args : list Z) | TPlayFrom (args : list Z) | TTimeSignature (args : list Z) | TMeasureShift (arg : Z) | TTempo (arg : Z).
